@@ -7,6 +7,7 @@ import (
 	"github.com/z7zmey/php-parser/pkg/ast"
 	"github.com/z7zmey/php-parser/pkg/visitor"
 	"github.com/z7zmey/php-parser/pkg/visitor/traverser"
+	"io"
 	"os"
 	"os/exec"
 	"path/filepath"
@@ -618,7 +619,11 @@ func c11CLI(c *core.Ctx, idx int) {
 	}
 	if logs, _ := filepath.Glob(raceLog + "*"); len(logs) > 0 {
 		for _, l := range logs {
-			b, _ := os.ReadFile(l)
+			var b []byte
+			if f, err := os.Open(l); err == nil {
+				b, _ = io.ReadAll(io.LimitReader(f, 2<<20)) // a racy tree can write gigabytes of reports
+				f.Close()
+			}
 			if bytes.Contains(b, []byte("WARNING: DATA RACE")) {
 				c.Violation("race|cli|"+c11RaceSite(string(b)), "Go race detector report in the CLI worker pool:\n"+trunc(string(b), 3000), w)
 				return
